@@ -4,6 +4,7 @@ scalar payloads and lexical forms, the number of same-shaped elements of a non-e
 order of members are irrelevant. The lift to texts goes through the text-layer model (C04).
 -/
 import ShapeVerif.Props.C17
+import ShapeVerif.Lemmas.MemberOrder
 namespace ShapeVerif
 open Shape
 
@@ -109,5 +110,136 @@ theorem infer_scalar_forms (a b : String) (p q : Bool) :
     inferDoc (.bool p) = inferDoc (.bool q) := ⟨rfl, rfl, rfl⟩
 
 example : inferDoc (.arr [.num "1", .num "2.5e3", .num "-0"]) = inferDoc (.arr [.num "7"]) := by rfl
+
+/-- The rewrites of a document that the property speaks about, closed under nesting: another
+payload or lexical form of a scalar, another order of the members of an object, another number of
+copies in an array of copies (each copy can then be rewritten on its own by the congruence rules). -/
+inductive Rerender : Doc → Doc → Prop
+  | refl (d : Doc) : Rerender d d
+  | symm {a b : Doc} : Rerender a b → Rerender b a
+  | trans {a b c : Doc} : Rerender a b → Rerender b c → Rerender a c
+  | num (a b : String) : Rerender (.num a) (.num b)
+  | str (a b : String) : Rerender (.str a) (.str b)
+  | bool (p q : Bool) : Rerender (.bool p) (.bool q)
+  | element {x y : Doc} (pre post : List Doc) : Rerender x y →
+      Rerender (.arr (pre ++ x :: post)) (.arr (pre ++ y :: post))
+  | member {v w : Doc} (k : String) (pre post : List (String × Doc)) : Rerender v w →
+      Rerender (.obj (pre ++ (k, v) :: post)) (.obj (pre ++ (k, w) :: post))
+  | order {ms ms' : List (String × Doc)} : ms.Perm ms' → Rerender (.obj ms) (.obj ms')
+  | copies (x : Doc) (n m : Nat) :
+      Rerender (.arr (List.replicate (n + 1) x)) (.arr (List.replicate (m + 1) x))
+
+def SameOk (a b : Doc) : Prop := ∀ s, inferDoc a = .ok s ↔ inferDoc b = .ok s
+
+theorem inferDocList_congr {x y : Doc} (h : SameOk x y) (post : List Doc) :
+    ∀ (pre : List Doc) (ss : List Shape),
+      inferDocList (pre ++ x :: post) = .ok ss ↔ inferDocList (pre ++ y :: post) = .ok ss
+  | [], ss => by
+    simp only [List.nil_append, inferDocList]
+    cases hx : inferDoc x with
+    | error e =>
+      cases hy : inferDoc y with
+      | error e' => simp
+      | ok sy => have := (h sy).2 hy; rw [hx] at this; cases this
+    | ok sx => have := (h sx).1 hx; simp [this]
+  | p :: pre, ss => by
+    simp only [List.cons_append, inferDocList]
+    cases inferDoc p with
+    | error e => simp
+    | ok sp =>
+      simp only
+      have ih := inferDocList_congr h post pre
+      cases h1 : inferDocList (pre ++ x :: post) with
+      | error e =>
+        cases h2 : inferDocList (pre ++ y :: post) with
+        | error e' => simp
+        | ok ss2 => have := (ih ss2).2 h2; rw [h1] at this; cases this
+      | ok ss1 => have := (ih ss1).1 h1; simp [this]
+
+theorem inferDocMembers_congr {v w : Doc} (h : SameOk v w) (k : String) (post : List (String × Doc)) :
+    ∀ (pre : List (String × Doc)) (c r : Members),
+      inferDocMembers (pre ++ (k, v) :: post) c = .ok r ↔ inferDocMembers (pre ++ (k, w) :: post) c = .ok r
+  | [], c, r => by
+    simp only [List.nil_append, inferDocMembers]
+    cases hv : inferDoc v with
+    | error e =>
+      cases hw : inferDoc w with
+      | error e' => simp
+      | ok sw => have := (h sw).2 hw; rw [hv] at this; cases this
+    | ok sv => have := (h sv).1 hv; simp [this]
+  | (k', p) :: pre, c, r => by
+    simp only [List.cons_append, inferDocMembers]
+    cases inferDoc p with
+    | error e => simp
+    | ok sp =>
+      simp only
+      cases addMember c k' sp with
+      | error e => simp
+      | ok c' => exact inferDocMembers_congr h k post pre c' r
+
+theorem arr_sameOk {l l' : List Doc}
+    (h : ∀ ss, inferDocList l = .ok ss ↔ inferDocList l' = .ok ss) : SameOk (.arr l) (.arr l') := by
+  intro s
+  simp only [inferDoc]
+  cases h1 : inferDocList l with
+  | error e =>
+    cases h2 : inferDocList l' with
+    | error e' => simp
+    | ok ss2 => have := (h ss2).2 h2; rw [h1] at this; cases this
+  | ok ss1 => have := (h ss1).1 h1; simp [this]
+
+theorem obj_sameOk {l l' : List (String × Doc)}
+    (h : ∀ r, inferDocMembers l [] = .ok r ↔ inferDocMembers l' [] = .ok r) : SameOk (.obj l) (.obj l') := by
+  intro s
+  simp only [inferDoc]
+  cases h1 : inferDocMembers l [] with
+  | error e =>
+    cases h2 : inferDocMembers l' [] with
+    | error e' => simp
+    | ok r2 => have := (h r2).2 h2; rw [h1] at this; cases this
+  | ok r1 => have := (h r1).1 h1; simp [this]
+
+theorem inferDocList_replicate_error {x : Doc} {e : InferErr} (hx : inferDoc x = .error e) (n : Nat) :
+    inferDocList (List.replicate (n + 1) x) = .error e := by
+  simp [List.replicate_succ, inferDocList, hx]
+
+theorem copies_sameOk (x : Doc) (n m : Nat) :
+    SameOk (.arr (List.replicate (n + 1) x)) (.arr (List.replicate (m + 1) x)) := by
+  intro s
+  cases hx : inferDoc x with
+  | error e =>
+    simp [inferDoc, inferDocList_replicate_error hx]
+  | ok sx =>
+    have h1 := infer_repetition (List.replicate (n + 1) x) sx (by simp [List.replicate_succ])
+      (fun y hy => by rw [List.eq_of_mem_replicate hy]; exact hx)
+    have h2 := infer_repetition (List.replicate (m + 1) x) sx (by simp [List.replicate_succ])
+      (fun y hy => by rw [List.eq_of_mem_replicate hy]; exact hx)
+    rw [h1, h2]
+
+/-- **C07 on document trees**: every re-rendering of a document is given the same shape (and is
+rejected when the original is) -/
+theorem rerender_same_shape {d d' : Doc} (h : Rerender d d') : SameOk d d' := by
+  induction h with
+  | refl d => intro s; exact Iff.rfl
+  | symm _ ih => intro s; exact (ih s).symm
+  | trans _ _ ih1 ih2 => intro s; exact (ih1 s).trans (ih2 s)
+  | num a b => intro s; simp [inferDoc]
+  | str a b => intro s; simp [inferDoc]
+  | bool p q => intro s; simp [inferDoc]
+  | element pre post _ ih => exact arr_sameOk (inferDocList_congr ih post pre)
+  | member k pre post _ ih => exact obj_sameOk (fun r => inferDocMembers_congr ih k post pre [] r)
+  | order hp =>
+    intro s
+    exact ⟨infer_member_order hp, infer_member_order hp.symm⟩
+  | copies x n m => exact copies_sameOk x n m
+
+example : Rerender (.obj [("a", .num "1"), ("b", .arr [.str "x", .str "y"])])
+    (.obj [("b", .arr [.str "\\u0078"]), ("a", .num "-0.0e+10")]) := by
+  refine .trans (.order (List.Perm.swap _ _ [])) ?_
+  refine .trans (.member "a" [("b", _)] [] (.num _ "-0.0e+10")) ?_
+  refine .member "b" [] [("a", _)] ?_
+  refine .trans (.element [] [.str "y"] (.str "x" "\\u0078")) ?_
+  refine .trans (.element [.str "\\u0078"] [] (.str "y" "\\u0078")) ?_
+  exact .copies (.str "\\u0078") 1 0
 
 end ShapeVerif
